@@ -39,6 +39,7 @@ InitSt == [ H     |-> <<>>,   \* handle id -> handle record (see MkH)
             oor   |-> FALSE,  \* some value left the 32-bit-safe range (Rat.OOR): the trace is out_of_model from here on
             track |-> TRUE,   \* graph tracking switch (no_autodiff scopes)
             tsaved |-> <<>>,  \* values of `track` saved by the enclosing no_autodiff scopes
+            pend  |-> {},     \* handles with a consumer the in-place machinery failed to re-route (F-C09-1 not yet manifest)
             kf    |-> {},     \* known-finding triggers this history has passed (DESIGN 4.4 / section 7)
             exc   |-> "none"  \* exception class the last statement is predicted to raise
           ]
@@ -50,6 +51,9 @@ MkH(kind, buf, imap, sh, const, node, base, par) ==
    \* kids : registered view children (handle ids);  gc : generation of the base gradient a stale view cached
 
 Handles(st)   == {h \in 1..Len(st.H) : st.H[h].live}
+\* dropping a handle only removes the USER's reference: the object may live on (as a base, as an operand of a live
+\* operation) and still takes part in graph traversals
+AllH(st)      == 1..Len(st.H)
 \* (TLCEval forces TLC to materialise a function instead of re-evaluating its lazy definition on every access)
 Cells(st, h)  == LET r == st.H[h] IN TLCEval([k \in 1..Len(r.imap) |-> st.mem[r.buf][r.imap[k]]])
 Vals(st, h)   == LET r == st.H[h] IN [k \in 1..Len(r.imap) |-> st.mem[r.buf][r.imap[k]].v]
@@ -107,7 +111,7 @@ NullOnUse(st, hs) ==
 MkResult(st, s, sh, cells, os) ==
   IF st.track THEN
     LET const == ResConst(st, os, Kw(s, "kw", <<>>))
-        st0 == NullOnUse(st, OpHandles(os))
+        st0 == [NullOnUse(st, OpHandles(os)) EXCEPT !.kf = IF OpHandles(os) \cap st.pend # {} THEN @ \cup {"F-C09-1"} ELSE @]
         st1 == NewBuf(st0, cells, const)
         st2 == NewNodeB(st1, OpNodes(st, os), const, TRUE, Len(st1.mem))
     IN PutH(st2, s.h, MkH("t", Len(st1.mem), Iota(Len(cells)), sh, const, Len(st2.N), 0, 0))
@@ -131,7 +135,8 @@ MkView(st, s, a, sh, gth) ==
       const == IF c = "true" THEN TRUE ELSE IF c = "false" THEN FALSE ELSE src.const
       \* a stale view used as the parent of a new view detaches first and becomes the base
       stale == src.base # 0 /\ ~HasCr(st, a)
-      st0 == IF stale THEN [st EXCEPT !.H[a].base = 0, !.H[a].par = 0, !.H[a].gc = 0] ELSE st
+      stk == [st EXCEPT !.kf = IF a \in st.pend THEN @ \cup {"F-C09-1"} ELSE @]
+      st0 == IF stale THEN [stk EXCEPT !.H[a].base = 0, !.H[a].par = 0, !.H[a].gc = 0] ELSE stk
       base == IF st0.H[a].base = 0 THEN a ELSE st0.H[a].base
       st1 == NewNode(st0, <<src.node>>, const, TRUE)
       st2 == PutH(st1, s.h, MkH("t", src.buf, Gather(src.imap, gth), sh, const, Len(st1.N), base, a))
@@ -302,10 +307,15 @@ InPlace(st, t, newc, srcs, oldIsInput) ==
       \* KNOWN FINDING F-C09-1 (trigger): an operation recorded BEFORE some clear_graph/backward emptied the
       \* consumer set of a family member still consumes that member; MyGrad's in-place machinery re-routes
       \* only the consumers still listed, so that operation silently sees the mutated tensor.
-      famnodes == {st.H[x].node : x \in fam}
-      missed == \E m \in DOMAIN st.N : st.N[m].cr /\
-                   \E i \in 1..Len(st.N[m].par) : st.N[m].par[i] \in famnodes /\ st.N[st.N[m].par[i]].clrAt > st.N[m].born
-      st0 == [NullOnUse(st, OpHandles(srcs) \ fam) EXCEPT !.kf = IF missed THEN @ \cup {"F-C09-1"} ELSE @]
+      \* Such a consumer still points at the PUBLIC tensor.  When its graph is back-propagated later, MyGrad's
+      \* staleness guard (empty consumer set => InvalidBackprop) catches this - unless the public tensor has acquired
+      \* consumers again (its views were re-created, or it is used in a new operation) or is a constant (constants
+      \* are never checked).  Only then is the defect silent; until then the handles are merely `pend`ing.
+      missedH == {x \in fam : \E m \in DOMAIN st.N : st.N[m].cr /\
+                    \E i \in 1..Len(st.N[m].par) : st.N[m].par[i] = st.H[x].node /\ st.N[st.N[m].par[i]].clrAt > st.N[m].born}
+      silent == missedH # {} /\ (const \/ Cardinality(fam) > 1 \/ missedH \cap st.pend # {})
+      st0 == [NullOnUse(st, OpHandles(srcs) \ fam) EXCEPT !.kf = IF silent THEN @ \cup {"F-C09-1"} ELSE @,
+                                                           !.pend = @ \cup missedH]
       st1 == [NewBuf(st0, raw, const) EXCEPT !.g[r] = None]
       nb == Len(st1.mem)
       \* graph: the root gets a new node whose parents are the old nodes of root, target and operands
@@ -381,7 +391,7 @@ UpDiff(st, n) == {n} \cup (IF st.N[n].cr /\ ~st.N[n].const
 \* clear_graph from node set ns: creators dropped, view registrations dropped; a view that loses its creator
 \* caches ("pulls") the current view of its base's gradient
 ClearNodes(st, ns) ==
-  LET hs == {h \in Handles(st) : st.H[h].node \in ns}
+  LET hs == {h \in AllH(st) : st.H[h].node \in ns}
       newgc(r) == IF r.base # 0 /\ st.N[r.node].cr
                   THEN (IF ~IsNone(st.g[r.base]) THEN st.gen[r.base] ELSE 0)
                   ELSE r.gc
@@ -431,7 +441,7 @@ ApplyBackward(st, s) ==
       c == Cells(st, L)
       tot == DSumSeq([k \in 1..Len(c) |-> DScale(seed[k], c[k])]).t
       upd == UpDiff(st, lr.node)
-      vis == {h \in Handles(st) : st.H[h].node \in upd}                 \* public tensors visited
+      vis == {h \in AllH(st) : st.H[h].node \in upd}                    \* tensors visited
       wr  == {h \in vis : ~st.H[h].const /\ st.H[h].base = 0}           \* owners that receive a gradient
       st1 == [st EXCEPT !.g = [h \in DOMAIN @ |-> IF h \in wr THEN Some(Adjoint(st, tot, h))
                                                   ELSE IF h \in vis /\ st.H[h].base = 0 THEN None ELSE @[h]],
@@ -453,7 +463,9 @@ ObsGrad(st, h) ==
             ELSE None
 ObsBase(st, h) == LET b == st.H[h].base IN IF b # 0 /\ ~st.H[b].live THEN -1 ELSE b
 \* ------------------------------------------------------------------ other statements
-ApplyClear(st, s) == ClearNodes(st, UpAll(st, st.H[s.h].node))
+\* (clear_graph has no staleness guard: with a pending F-C09-1 consumer the traversal may cross into the mutated
+\*  tensor's new graph - the known finding becomes manifest)
+ApplyClear(st, s) == ClearNodes([st EXCEPT !.kf = IF st.pend # {} THEN @ \cup {"F-C09-1"} ELSE @], UpAll(st, st.H[s.h].node))
 ApplyNullGrad(st, s) == IF st.H[s.h].base = 0 THEN [st EXCEPT !.g[s.h] = None]
                         ELSE [st EXCEPT !.H[s.h].gc = 0]
 ApplyDrop(st, s) == [st EXCEPT !.H[s.h].live = FALSE]
@@ -474,6 +486,14 @@ ApplyEditGrad(st, s) ==
       cells == {hr.imap[ig[k]] : k \in 1..Len(ig)}
   IN IF IsNone(ObsGrad(st, s.h)) THEN st
      ELSE [st EXCEPT !.g[r] = Some([c \in 1..Len(@.v) |-> IF c \in cells THEN s.c ELSE @.v[c]])]
+\* t.shape = newshape : in-place reshape of ONE tensor (its views keep their own shapes); NumPy refuses it when the
+\* new shape cannot be described by strides over the same memory (then the statement is a failing statement)
+SetShapeOK(st, s) == ReshapeOK(st.H[s.t].sh, s.sh) /\ Affine(st.H[s.t].imap, ResolveShape(s.sh, Size(st.H[s.t].sh)))
+ApplySetShape(st, s) ==
+  LET hr == st.H[s.t] nsh == ResolveShape(s.sh, Size(hr.sh)) IN
+  IF s.sh = hr.sh \/ ~st.track THEN [st EXCEPT !.H[s.t].sh = nsh]      \* (the code compares the shapes literally)
+  ELSE LET st1 == NewNode(st, <<hr.node>>, hr.const, TRUE)
+       IN [st1 EXCEPT !.H[s.t].sh = nsh, !.H[s.t].node = Len(st1.N)]
 \* scopes: only no_autodiff changes what the reference observes (the memory guard is MemGuard.tla's subject)
 ApplyEnter(st, s) == IF s.m = "no_autodiff" THEN [st EXCEPT !.tsaved = Append(@, st.track), !.track = FALSE] ELSE st
 ApplyExit(st, s)  == IF s.m = "no_autodiff" THEN [st EXCEPT !.track = st.tsaved[Len(st.tsaved)], !.tsaved = SubSeq(@, 1, Len(@) - 1)]
@@ -496,6 +516,7 @@ Apply(st0, s) ==
     [] s.k = "nullgrad" -> ApplyNullGrad(st, s)
     [] s.k = "drop"     -> ApplyDrop(st, s)
     [] s.k = "copy"     -> ApplyCopy(st, s)
+    [] s.k = "setshape" -> ApplySetShape(st, s)
     [] s.k = "editgrad" -> ApplyEditGrad(st, s)
     [] s.k = "enter"    -> ApplyEnter(st, s)
     [] s.k = "exit"     -> ApplyExit(st, s)
